@@ -30,7 +30,7 @@ var c03Programs = []string{
 	"2d1", "d1", "2d", "d", "3d1k2", "2d1min1", "d1优势", "2d1d1", "(2d1)d1", "f", "b", "p1", "b2", "2a10", "a10", "2a10m1k1", "2c10", "2c10m1",
 	"y = 5", "y = x + 1", "&y = x + 1", "&xc.q = 3", "this.y = 3", "xd.j = 4", "xa[0] = 9", "xa[0:1] = [7]", "xd['j'] = 2", "y = z = 3",
 	"if x {y = 1}", "if 0 {1} else {y = 2}", "if 0 {} else if 1 {y = 3} else {y = 4}", "i = 0; while i < 2 {i = i + 1}", "while 0 {}", "func g(a){a+1}", "func g(){}; g()", "return 5",
-	"1; 2", "1\n2", "y = 1; y + 1", "// c\n7", "// #EnableDice coc false\nb", "x;", "x ;", "^stA:5", "^stA5B6", "^stA+1", "^st&A=1d1", "^st'a b':3",
+	"while 0 {}; 0", "i = 0; while i < 2 { i = i + 1 }; i > 5", "if 1 {}; x", "if 0 {} else {}; 0", "func g(){}; 0", "1; 2", "1\n2", "y = 1; y + 1", "// c\n7", "// #EnableDice coc false\nb", "x;", "x ;", "^stA:5", "^stA5B6", "^stA+1", "^st&A=1d1", "^st'a b':3",
 	"`{% y = 2 %}{y}`", "\x1e{x}\x1e", "''", "'a' + 'b'", "[x, 2d1]", "{'k': 2d1}", "xf(2d1)", "x + 2d1", "xc", "xc + 1", "load('x')", "store('y', 4)",
 }
 
@@ -39,7 +39,7 @@ var c03Seps = []string{"", " ", ";", "\n", " ;\n"}
 var c03Tails = []string{
 	"'abc", "\"ab", "`x{1", "`x{1}", "\x1e x", "[1,", "[1..", "[1", "{'a':1", "{'a'", "{a", "(1+", "(", "gg(1,", "gg(", "x[", "x[1:", "x[1", "x.", "&y =", "&y", "if 1 {", "if 1",
 	"while 1 { x", "func g(", "func g(){", "1 ?", "1 ? 2 :", "1 ? 2,", "2d", "2a", "b(", "//", "// #EnableDice coc", "^st", "1+", "-", "=", ")", "]", "}", "%}", "理由文本", "reason text",
-	"kh", "k", ".5", ".x", "[0]", "[0:", "(1)", "* 2", "*", "? 1", "?? ", "|| ", "&& ", "& ", "| ", "==", "= 1", "d", "d6", "a10", "c3", "min", "优势", "else {}", "{", "..", ":", ",", ",1", "'", "\\", "\xff", "!= 0", "< 3",
+	"? 2 ||", "? 2 || ", "? 1 : 2 ||", "? 2, 0 ? 3 ||", "|| 0 ||", "&& 1 ||", "kh", "k", ".5", ".x", "[0]", "[0:", "(1)", "* 2", "*", "? 1", "?? ", "|| ", "&& ", "& ", "| ", "==", "= 1", "d", "d6", "a10", "c3", "min", "优势", "else {}", "{", "..", ":", ",", ",1", "'", "\\", "\xff", "!= 0", "< 3",
 }
 
 var c03CompoundTails []string
